@@ -389,3 +389,13 @@ func spilledParam(a *ssa.Alloc) *ssa.Parameter {
 	}
 	return nil
 }
+
+// canonCmp renders "l op r" for two non-constant terms in the orientation cmpTerm uses.
+func canonCmp(l, op, r string) string {
+	flip := map[string]string{"<": ">", ">": "<", "<=": ">=", ">=": "<=", "==": "==", "!=": "!="}
+	if r < l {
+		l, r = r, l
+		op = flip[op]
+	}
+	return "(" + l + " " + op + " " + r + ")"
+}
